@@ -6,11 +6,12 @@ package props
 
 import (
 	"bytes"
-	"math"
+	"encoding/binary"
 	"encoding/hex"
 	"encoding/json"
 	"fmt"
 	"hash/fnv"
+	"math"
 	"os"
 	"reflect"
 	"runtime"
@@ -287,6 +288,9 @@ var typeEncF = func() encode.Encoder {
 	return e
 }()
 
+type namedU32 uint32
+type namedI16 int16
+
 type encSpec struct {
 	name  string
 	enc   encode.Encoder
@@ -408,6 +412,40 @@ func init() {
 	tf.typ = reflect.TypeOf(tfloat{})
 	add(tf)
 
+	// TypeEncoder over plain and named scalar types, in both byte orders (the
+	// constructors are exported and documented with binary.BigEndian examples)
+	scalar := func(name string, zero interface{}, w int, big bool, conv func(uint64) interface{}) {
+		var ord binary.ByteOrder = binary.LittleEndian
+		if big {
+			ord = binary.BigEndian
+		}
+		e, err := encode.NewTypeEncoderEndian(zero, ord)
+		if err != nil {
+			panic(err)
+		}
+		sp := &encSpec{name: name, enc: e, width: w}
+		sp.value = func(p []byte) interface{} { return conv(le(p, w)) }
+		sp.ref = func(p []byte) []byte {
+			b := pad(p, w)[:w]
+			if big {
+				for i, j := 0, w-1; i < j; i, j = i+1, j-1 {
+					b[i], b[j] = b[j], b[i]
+				}
+			}
+			return b
+		}
+		sp.want = sp.value
+		sp.typ = reflect.TypeOf(zero)
+		add(sp)
+	}
+	scalar("TBEU16", uint16(0), 2, true, func(v uint64) interface{} { return uint16(v) })
+	scalar("TBEU32", uint32(0), 4, true, func(v uint64) interface{} { return uint32(v) })
+	scalar("TBEU64", uint64(0), 8, true, func(v uint64) interface{} { return uint64(v) })
+	scalar("TBEI16", int16(0), 2, true, func(v uint64) interface{} { return int16(v) })
+	scalar("TBEN32", namedU32(0), 4, true, func(v uint64) interface{} { return namedU32(v) })
+	scalar("TLEU64", uint64(0), 8, false, func(v uint64) interface{} { return uint64(v) })
+	scalar("TLEN16", namedI16(0), 2, false, func(v uint64) interface{} { return namedI16(v) })
+
 	// Dummy documents "Decode always returns nil" and encodes to nothing.
 	du := &encSpec{name: "Dummy", enc: encode.Dummy{}, width: 0}
 	du.value = func(p []byte) interface{} { return int32(le(p, 4)) }
@@ -470,7 +508,8 @@ func (strictU32) GetSize(d interface{}) int {
 }
 func (strictU32) GetEncodedSize(b []byte) int { return 4 }
 
-var fixedEncNames = []string{"I8", "I16", "I32", "I64", "U16", "U32", "U64", "Int", "Bytes1", "Bytes3", "Bytes5", "Bytes300", "TypeEnc", "TypeEncF", "StrictU32"}
+var fixedEncNames = []string{"I8", "I16", "I32", "I64", "U16", "U32", "U64", "Int", "Bytes1", "Bytes3", "Bytes5", "Bytes300", "TypeEnc", "TypeEncF", "StrictU32",
+	"TBEU16", "TBEU32", "TBEU64", "TBEI16", "TBEN32", "TLEU64", "TLEN16"}
 var allEncNames = append(append([]string{}, fixedEncNames...), "String16", "Dummy", "OptU16")
 
 func (c *Case) spec() *encSpec {
